@@ -317,15 +317,18 @@ def dictUpdate (d : List (Str × Str)) (k v : Str) : List (Str × Str) :=
 
 def natStr (n : Nat) : Str := (toString n).toList
 
-/-- `--split COUNT`: wrap the URI in the split adapter and add `count` / `suffix-length` to its query. -/
-def splitWrap (uri : Str) (count suffixLen : Nat) : Str :=
+/-- `--split COUNT`: wrap the URI in the split adapter and add `count` / `suffix-length` (given as text) to its
+    query. -/
+def splitWrapS (uri cs ls : Str) : Str :=
   let wrapped : Str :=
     if (splitOnce schemeSep uri).isSome then "split+".toList ++ uri else "split://".toList ++ uri
   let (scheme, np, query) := urlparse3 wrapped
   let keys := Gen.rdumpSplitQueryKeys
-  let d := dictUpdate (dictUpdate (parseQs query) (keys.headD "count").toList (natStr count))
-              ((keys.drop 1).headD "suffix-length").toList (natStr suffixLen)
+  let d := dictUpdate (dictUpdate (parseQs query) (keys.headD "count").toList cs)
+              ((keys.drop 1).headD "suffix-length").toList ls
   scheme ++ schemeSep ++ np ++ ['?'] ++ urlencode d
+
+def splitWrap (uri : Str) (count suffixLen : Nat) : Str := splitWrapS uri (natStr count) (natStr suffixLen)
 
 def writerUri (p : Present) (fields exclude : Option String) : Str :=
   let uri := baseUri p fields exclude
